@@ -208,6 +208,36 @@ def tlc(module, cfg, workers=16, simulate=None, depth=None, tlc_seed=None, timeo
     return result
 
 
+def apalache_inductive(module, init, inv, cinit="ConstInit", timeout=600):
+    """
+    Discharge an inductive invariant with Apalache: (init => inv) at length 0 and (inv as initial predicate /\ Next => inv')
+    at length 1. Returns a dict for the evidence notes; raises MachineryError when Apalache finds a counterexample (the
+    argument is about the model) or cannot be run.
+    """
+    out = workdir("apalache")
+    steps = []
+    try:
+        for what, arguments in (("base: Init => %s" % inv, ["--init=Init", "--inv=%s" % inv, "--length=0"]),
+                                ("step: %s /\\ Next => %s'" % (inv, inv), ["--init=%s" % init, "--inv=%s" % inv, "--length=1"])):
+            started = time.time()
+            command = ["apalache-mc", "check", "--cinit=%s" % cinit, "--out-dir=%s" % out] + arguments + [module]
+            try:
+                done = subprocess.run(command, cwd=SPEC, stdout=subprocess.PIPE, stderr=subprocess.STDOUT, universal_newlines=True,
+                                      timeout=timeout)
+            except (OSError, subprocess.TimeoutExpired) as error:
+                raise MachineryError("apalache-mc could not be run for %s: %s" % (module, error))
+            if "The outcome is: NoError" not in done.stdout:
+                raise MachineryError("apalache-mc %s on %s: %s" % (" ".join(arguments), module, done.stdout[-800:]))
+            steps.append({"obligation": what, "outcome": "NoError", "wall_s": round(time.time() - started, 1)})
+    finally:
+        cleanup(out)
+        try:
+            os.rmdir(os.path.join(SPEC, "tmp"))  # left behind (empty) by apalache-mc
+        except OSError:
+            pass
+    return {"tool": "apalache-mc 0.58", "module": module, "inductive_invariant": inv, "obligations": steps}
+
+
 def require_coverage(result, actions, module=None):
     """Vacuity guard: every named action must have been taken at least once."""
     missing = [a for a in actions if result.coverage.get(a, (0, 0))[1] == 0]
